@@ -474,8 +474,19 @@ def e_core_dot_maxvol(c):
 
 @entry()
 def e_core_qr_rand(c):
+    ltr = bool(c.rng.integers(0, 2))
+    if c.rng.random() < 0.25:
+        # a core whose unfolding is already orthonormal (as orthogonalize / truncate produce), no extra columns requested
+        r1, n, r2 = int(c.rng.integers(1, 3)), int(c.rng.integers(2, 5)), int(c.rng.integers(1, 3))
+        if ltr:
+            Q = np.linalg.qr(c.rng.standard_normal((r1 * n, r2)))[0]
+            G = np.reshape(Q, (r1, n, r2), order='F')
+        else:
+            Q = np.linalg.qr(c.rng.standard_normal((n * r2, r1)))[0].T
+            G = np.reshape(Q, (r1, n, r2), order='F')
+        return Call('core_qr_rand', teneva.core_qr_rand, [c.own(np.array(G)), 0], {'ltr': ltr, 'seed': c.seed()}, seed_kw='seed')
     return Call('core_qr_rand', teneva.core_qr_rand, [_core(c), int(c.rng.integers(0, 3))],
-                {'ltr': bool(c.rng.integers(0, 2)), 'seed': c.seed()}, seed_kw='seed')
+                {'ltr': ltr, 'seed': c.seed()}, seed_kw='seed')
 
 
 @entry()
@@ -996,6 +1007,8 @@ def _trn(c, m=None):
     cover = np.array([[min(j, k - 1) for k in c.n] for j in range(max(c.n))])
     I = np.vstack([I, cover])
     y = c.rng.standard_normal(len(I))
+    if c.rng.random() < 0.1:
+        y[int(c.rng.integers(0, len(y)))] = _pick(c, [np.nan, np.inf, -np.inf])      # real data sets contain such entries
     return c.own(I), c.own(y)
 
 
@@ -1048,7 +1061,7 @@ def e_anova_from_file(c):
         if rr is not None:
             if np.asarray(rr[0]).tobytes() != np.asarray(rr[1]).tobytes():
                 return 'evaluating an ANOVA object restored from a file twice at the same multi-index gives two different results'
-            if np.asarray(rr[0]).tobytes() != np.asarray(rr[3]).tobytes() or float(rr[2]) != float(rr[4]):
+            if np.asarray(rr[0]).tobytes() != np.asarray(rr[3]).tobytes() or np.asarray(rr[2], dtype=float).tobytes() != np.asarray(rr[4], dtype=float).tobytes():
                 return 'an ANOVA object restored from a file evaluates differently from the object that was saved'
         if not isinstance(seed, int):
             return None
@@ -1073,6 +1086,14 @@ def e_ANOVA(c):
         a, b = obj(pts), obj(pts)
         if np.asarray(a).tobytes() != np.asarray(b).tobytes():
             return 'evaluating an ANOVA object twice at the same multi-indices gives two different results'
+        # the noise-free cores do not depend on the generator: they must be the same before and after the object has been sampled from
+        fresh = teneva.ANOVA(I, y, order, seed=1).cores(r, noise=0.0)
+        obj.sample()
+        obj.sample()
+        after = obj.cores(r, noise=0.0)
+        # (values are compared, not bytes: 0 * normal() is +0.0 or -0.0 depending on the draw)
+        if len(fresh) != len(after) or any(p_.shape != q_.shape or not np.array_equal(p_, q_) for p_, q_ in zip(fresh, after)):
+            return 'ANOVA.cores(noise=0) after two sample() calls differs from the cores of a freshly built object'
         return None
     return Call('ANOVA', teneva.ANOVA, [I, y], {'order': order, 'seed': c.seed()}, seed_kw='seed', post=post, check=check)
 
